@@ -58,7 +58,7 @@ var c11Lits = map[string]datamodel.Node{
 	"0": nInt(0), "1": nInt(1), "2": nInt(2), "1.0": nFloat(1.0), "1.5": nFloat(1.5), `"a"`: nStr("a"), "true": nBool(true), "null": nNull(), "[1]": nList(nInt(1)),
 	"{x:1,y:2}": nMap(kv{"x", nInt(1)}, kv{"y", nInt(2)}), "[{y:2,x:1}]": nList(nMap(kv{"y", nInt(2)}, kv{"x", nInt(1)})),
 	"link(cbor,h0)": nLink(0),
-	"0.3": nFloat(0.3), "10": nInt(10), "8": nInt(8), "[0..9]": nList(nInt(0), nInt(1), nInt(2), nInt(3), nInt(4), nInt(5), nInt(6), nInt(7), nInt(8), nInt(9)),
+	"0.3":           nFloat(0.3), "10": nInt(10), "8": nInt(8), "[0..9]": nList(nInt(0), nInt(1), nInt(2), nInt(3), nInt(4), nInt(5), nInt(6), nInt(7), nInt(8), nInt(9)),
 }
 var c11LitNames = []string{"0", "1", "2", "1.0", "1.5", `"a"`, "true", "null", "[1]", "{x:1,y:2}", "[{y:2,x:1}]", "link(cbor,h0)", "10", "8", "[0..9]", "0.3"}
 
